@@ -23,6 +23,7 @@ type ev struct {
 	pos, dur    int // in 32nds
 	note        bool
 	key         uint8
+	ch0         bool // use channel 0 whatever the track (the same voice doubled on two tracks)
 }
 
 type song struct {
@@ -59,7 +60,11 @@ func (s song) evs2raw() [][7]int {
 		if e.note {
 			n = 1
 		}
-		r = append(r, [7]int{e.bar, e.track, e.pos, e.dur, n, int(e.key), 0})
+		c0 := 0
+		if e.ch0 {
+			c0 = 1
+		}
+		r = append(r, [7]int{e.bar, e.track, e.pos, e.dur, n, int(e.key), c0})
 	}
 	return r
 }
@@ -70,10 +75,14 @@ type placed struct {
 }
 
 func msgOf(e ev) smf.Message {
-	if e.note {
-		return smf.Message(midi.NoteOn(uint8(e.track), e.key, 100))
+	ch := uint8(e.track)
+	if e.ch0 {
+		ch = 0
 	}
-	return smf.Message(midi.ControlChange(uint8(e.track), e.key, 1))
+	if e.note {
+		return smf.Message(midi.NoteOn(ch, e.key, 100))
+	}
+	return smf.Message(midi.ControlChange(ch, e.key, 1))
 }
 
 // expected computes the bar model.
@@ -101,7 +110,7 @@ func expected(s song) (want []placed, end int64, perTrack map[int]bool) {
 		want = append(want, placed{at, string(msgOf(e))})
 		perTrack[e.track] = true
 		if e.note && e.dur > 0 {
-			want = append(want, placed{at + int64(e.dur)*t32, string(smf.Message(midi.NoteOff(uint8(e.track), e.key)))})
+			want = append(want, placed{at + int64(e.dur)*t32, string(smf.Message(midi.NoteOff(msgOf(e)[0]&0x0F, e.key)))})
 		}
 	}
 	return
@@ -210,6 +219,10 @@ func judge(s song) {
 	sq := sequencer.New()
 	sq.Ticks = smf.MetricTicks(s.res)
 	sq.Title, sq.Composer = "t", "c"
+	if s.res == 96 {
+		// track names that coincide with names the export uses itself
+		sq.TrackNames = []string{"bars", "track-0", "bars"}
+	}
 	for i, sg := range s.sigs {
 		b := sequencer.Bar{TimeSig: [2]uint8{sg.n, sg.d}}
 		for _, e := range s.evs {
@@ -497,6 +510,14 @@ func eventSpace(si int) {
 		}
 		before += lens[b]
 	}
+	// the same voice doubled on two tracks: same channel, same key, ending on the same tick
+	for _, res := range resolutions {
+		for _, p := range [][4]int{{0, 4, 2, 2}, {0, 2, 0, 2}, {1, 3, 0, 4}} {
+			judge(song{res: res, sigs: ss, evs: []ev{
+				{bar: 0, track: 0, pos: p[0], dur: p[1], note: true, key: 64, ch0: true},
+				{bar: 0, track: 1, pos: p[2], dur: p[3], note: true, key: 64, ch0: true}}})
+		}
+	}
 	// all eight tracks at once (and a track number beyond the named ones)
 	for _, res := range resolutions {
 		var evs []ev
@@ -561,7 +582,7 @@ func main() {
 		if l, ok := m["raw_evs"].([]interface{}); ok {
 			for _, x := range l {
 				p := x.([]interface{})
-				s.evs = append(s.evs, ev{bar: int(p[0].(float64)), track: int(p[1].(float64)), pos: int(p[2].(float64)), dur: int(p[3].(float64)), note: p[4].(float64) == 1, key: uint8(p[5].(float64))})
+				s.evs = append(s.evs, ev{bar: int(p[0].(float64)), track: int(p[1].(float64)), pos: int(p[2].(float64)), dur: int(p[3].(float64)), note: p[4].(float64) == 1, key: uint8(p[5].(float64)), ch0: p[6].(float64) == 1})
 			}
 		}
 		judge(s)
